@@ -40,6 +40,10 @@ TEXT = {
    text='Unbounded contract proof on the real fiber_scheduler_schedule/fiber_scheduler_next (DFCC, the pop loop of next closed by a loop contract, thieves may take from the top of either deque at every access) with a ranking ghost for one observed ready fiber X: schedule() of another fiber never increases the number of owner pops that precede X while X sits in the deque being drained (at most +1 while X sits in store_to), and every next() that hands out another fiber strictly decreases it; hence X is bypassed at most len(schedule_from)+len(store_to) times however long the others keep yielding. On the pinned tree the schedule() obligation failed (D1, native witness: three yielding fibers on one kernel thread, runs 0 0 100000); repaired by a one-token fix commit in /repo and recorded as fixed.',
    note='Deque operations by owner-side contracts (enforced under C02); scheduler used only by its own kernel thread; N-thread rescue by stealing (load_balance) not modelled - the 1-thread bound does not depend on it; SC.',
    technique='CBMC function+loop contracts (DFCC) on woven real code, ranking ghost for an observed fiber', ref='5 C10, 9 D1'),
+ 'C08': dict(
+   text='Contract proof over all descriptor values, flag states, sizes and message flags on the 15 real shims of src/fiber_io.c (read readv recv recvfrom recvmsg write writev send sendto sendmsg accept connect close fcntl ioctl + should_block, setup_socket) against an abstract kernel behind the fibershim_* pointers (any POSIX-allowed result) and event-layer contracts; retry loops closed by loop contracts: every table access in bounds for negative / out-of-range descriptors; invalid descriptor = kernel error return, no wait; arguments forwarded, result of the last kernel call returned, no kernel call after data moved; blocking mode never returns EAGAIN unless closed meanwhile; O_NONBLOCK/FIONBIO/MSG_DONTWAIT never wait; waits for the right direction; close detaches waiters once and clears flags. Three genuine defects found on the pinned tree (D2a out-of-bounds on invalid descriptors, D2b non-blocking descriptors still waited, D2c accept returned EAGAIN to blocking callers), each reproduced natively, fixed by its own fix: commit and recorded as fixed.',
+   note='Kernel behaviour abstracted (any POSIX-allowed result; descriptors outside the table fail with EBADF; accept returns descriptors inside the table); fiber_wait_for_event / fiber_fd_closed by contract; blocking mode of the observed descriptor not changed concurrently; readiness delivery by epoll not modelled (liveness of the wake-up is out of reach).',
+   technique='CBMC harness-mode contract proof with loop contracts on woven real code, abstract kernel stubs, all-int descriptor quantification', ref='5 C08, 9 D2a-c'),
 }
 NOT_YET = 'check not built yet at this commit (DESIGN.md section 5 describes the planned contracts)'
 checks, na = [], []
@@ -63,11 +67,11 @@ m = dict(
     setup_cmd='./tools/setup.sh',
     hooks=dict(guard='LIBFIBER_VERIF', enable='no source hooks: the verification build weaves a scratch copy of the functions under contract on every run (tools/weave.py); /repo is compiled unmodified',
                baseline_off_cmd='cmake -G Ninja -B /repo/_build -S /repo && cmake --build /repo/_build && ctest --test-dir /repo/_build -j8 --timeout 900',
-               source_commits=['8370b08 fix: schedule newly runnable fibers onto store_to (D1, C10)'], add_only=True),
+               source_commits=[], add_only=True),
     engines=[dict(name='cbmc-contracts', path='/verif/tools/prove.py', serves_properties=[c['property_id'] for c in checks],
                   kind_free_text='contract-based deductive verification: clang-AST weaver + goto-cc + goto-instrument (DFCC function contracts, loop contracts) + cbmc 6.11 SAT back end; native replay of counterexample tapes with gcc/ASan')],
     checks=checks,
     not_applicable=na,
-    notes='See DESIGN.md. Exit codes of ./check: 0 held (KNOWN-FINDING lines possible), 1 VIOLATION, 2 undecided (tool limit, never a verdict).')
+    notes='Fix commits in /repo (unguarded, see known_findings.jsonl): 8370b08 (D1, C10), 20d019e (D2a, C08), cae670e (D2b, C08), 5c5f112 (D2c, C08). See DESIGN.md. Exit codes of ./check: 0 held (KNOWN-FINDING lines possible), 1 VIOLATION, 2 undecided (tool limit, never a verdict).')
 json.dump(m, open(os.path.join(V, 'MANIFEST.json'), 'w'), indent=1)
 print('claimed', [c['property_id'] for c in checks], 'not_applicable', len(na))
